@@ -41,7 +41,7 @@ Section T.
          end;
          cbn [fst snd] in *; split; [exact I1|];
          rewrite I2, !scheds_app;
-         match goal with |- context [scheds (if ?b then _ else _)] => replace (scheds (if b then [MFsync; MSave (so_content r)] else [])) with (@nil (nat * list bid)) by (destruct b; reflexivity) end;
+         match goal with |- context [scheds (if ?b then _ else _)] => replace (scheds (if b then [MDrain; MFsync; MSave (so_content r)] else [])) with (@nil (nat * list bid)) by (destruct b; reflexivity) end;
          cbn [app];
          destruct (so_write r) as [v|]; cbn [scheds flat_map app]; [rewrite set_parity_apply, <- map_apply_app; reflexivity | reflexivity]).
   Qed.
